@@ -16,17 +16,22 @@ ap=argparse.ArgumentParser()
 ap.add_argument('--src',required=True); ap.add_argument('--id',required=True); ap.add_argument('--prop',required=True)
 ap.add_argument('--wt',required=True); ap.add_argument('--pkgs',required=True); ap.add_argument('--demo-dir',required=True)
 ap.add_argument('--run',default=''); ap.add_argument('--also',default=''); ap.add_argument('--nodemo',action='store_true')
+ap.add_argument('--shim',action='store_true',help='worktree uses the dependency shim (go.mod modified); no -lang gcflags')
+ap.add_argument('--demo-timeout',default='10m')
 a=ap.parse_args()
 env=dict(os.environ,GOFLAGS='-mod=mod',GOPROXY='off',GOSUMDB='off',GOTOOLCHAIN='local')
 GC="-gcflags=github.com/grailbio/bigslice/...=-lang=go1.17"
-def sh(cmd,cwd=None,timeout=1200):
+if a.shim:
+    GC="-gcflags="
+EXCL=" -- . ':!go.mod' ':!go.sum'" if a.shim else " -- ."
+def sh(cmd,cwd=None,timeout=3600):
     p=subprocess.run(cmd,shell=True,cwd=cwd,env=env,stdout=subprocess.PIPE,stderr=subprocess.STDOUT,text=True,timeout=timeout)
     return p.returncode,p.stdout
 ran=[]
 def step(name,cmd,cwd):
     rc,out=sh(cmd,cwd); ran.append({"step":name,"cmd":cmd,"exit":rc,"tail":out[-600:]}); return rc,out
 wt=a.wt
-rc,out=sh("git status --porcelain --untracked-files=no",wt)
+rc,out=sh("git status --porcelain --untracked-files=no"+EXCL,wt)
 assert out.strip()=="",("worktree not clean",out)
 demo_dst=os.path.join(wt,a.demo_dir,"zz_seed_demo_test.go")
 meta={"id":a.id,"property":a.prop,"confirmed":{}}
@@ -34,21 +39,21 @@ patch=os.path.join(a.src,"patch.diff")
 runflag=("-run '%s'"%a.run) if a.run else ""
 if not a.nodemo:
     shutil.copy(os.path.join(a.src,"demo_test.go"),demo_dst)
-    rc,_=step("demo on unchanged worktree",f"go test -vet=off -count=1 '{GC}' {runflag} ./{a.demo_dir}",wt)
+    rc,_=step("demo on unchanged worktree",f"go test -vet=off -count=1 -timeout {a.demo_timeout} '{GC}' {runflag} ./{a.demo_dir}",wt)
     meta["confirmed"]["demo_passes_without_change"]=(rc==0)
     os.remove(demo_dst)
 rc,_=step("apply patch in worktree",f"git apply {patch}",wt)
 assert rc==0,"patch does not apply"
 rc,_=step("build with change",f"go build '{GC}' {a.pkgs}",wt)
 meta["confirmed"]["compiles_with_change"]=(rc==0)
-rc,_=step("existing package tests with change",f"go test -vet=off -count=1 '{GC}' {a.pkgs}",wt)
+rc,_=step("existing package tests with change",f"go test -vet=off -count=1 -timeout 20m '{GC}' {a.pkgs}",wt)
 meta["confirmed"]["existing_tests_pass_with_change"]=(rc==0)
 if not a.nodemo:
     shutil.copy(os.path.join(a.src,"demo_test.go"),demo_dst)
-    rc,_=step("demo with change",f"go test -vet=off -count=1 '{GC}' {runflag} ./{a.demo_dir}",wt)
+    rc,_=step("demo with change",f"go test -vet=off -count=1 -timeout {a.demo_timeout} '{GC}' {runflag} ./{a.demo_dir}",wt)
     meta["confirmed"]["demo_fails_with_change"]=(rc!=0)
     os.remove(demo_dst)
-sh("git checkout -- .",wt)
+sh("git checkout"+EXCL,wt)
 # against /repo
 rc,out=sh("git status --porcelain --untracked-files=no","/repo"); assert out.strip()=="",("/repo dirty",out)
 rc,_=step("apply to /repo",f"git -C /repo apply {patch}",None)
